@@ -2091,6 +2091,18 @@ def pattern_method(I, pat, name, args, kwargs):
         if fact is not None:
             I.assume(fact(isnone))
         return VOpt(isnone, m)
+    if name == 'sub' and len(args) >= 2 and is_concrete(args[0]) and isinstance(concretise(args[0]), str):
+        # pattern.sub(constant replacement, s): an uninterpreted function of the subject; exact
+        # on constant subjects
+        o = pat.obj if isinstance(pat, VConc) else None
+        subj = z3.simplify(strterm(args[1]))
+        repl = concretise(args[0])
+        if o is not None and z3.is_string_value(subj):
+            return VStr(o.sub(repl, decode_z3_string(subj.as_string())))
+        import hashlib
+        key = hashlib.md5(('%s|%s' % (getattr(o, 'pattern', id(pat)), repl)).encode()).hexdigest()[:10]
+        f = z3.Function('re_sub_' + key, z3.StringSort(), z3.StringSort())
+        return VStr(f(subj))
     raise Unsupported('Pattern.%s' % name)
 
 
